@@ -18,6 +18,7 @@ import XotModel.Driver.Fmap
 import XotModel.Driver.Parse
 import XotModel.Driver.Fclone
 import XotModel.Driver.Repair
+import XotModel.Driver.Lex
 
 open XotModel.Driver
 
@@ -34,6 +35,7 @@ def dispatch (st : DState) (line : String) : DState × String :=
   | "html" :: rest => (st, (handleHtml st rest).getD "bad-request")
   | "build" :: rest => (st, (handleBuild st rest).getD "bad-request")
   | "repair" :: rest => (st, (handleRepair st rest).getD "bad-request")
+  | "lex" :: rest => (st, (handleLex rest).getD "bad-request")
   | _ => (st, "bad-request")
 
 structure MState where
